@@ -86,6 +86,7 @@ pub fn trace_and_verify(
         cfg: cfg.clone(),
         txns: t.txns.clone(),
         failed: t.failed.iter().map(|f| f.id).collect(),
+        failed_recs: vec![],
         plans: plans.clone(),
         probe_every,
         base_dir: None,
